@@ -275,6 +275,7 @@ func (v *FnVerifier) reset() {
 	v.loopsFound = map[int]bool{}
 	v.pending = nil
 	v.ceils = nil
+	v.opqDeps, v.opqDone, v.rec = nil, nil, nil
 	v.now0 = v.ctx.Const("now!0", SInt)
 	v.entry = &State{arr: map[string]Term{}, now: v.now0}
 }
